@@ -65,7 +65,7 @@ impl Cfg {
     pub fn for_tier(tier: &str, seed: u64) -> Self {
         match tier {
             "thorough" => Cfg { seed, rounds: 7, bulk: 0, bulk_rounds: 0 },
-            "bulk" => Cfg { seed, rounds: 1, bulk: 9000, bulk_rounds: 5 },
+            "bulk" => Cfg { seed, rounds: 1, bulk: 8000, bulk_rounds: 5 },
             _ => Cfg { seed, rounds: 2, bulk: 0, bulk_rounds: 0 },
         }
     }
@@ -215,12 +215,21 @@ pub fn record(dir: &Path, cfg: &Cfg) -> Result<Recording, String> {
             run.act(TestActions::NoOp(key, 1))?;
         }
         for _ in 0..cfg.bulk_rounds {
-            run.push_to_b()?;
-            for _ in 0..cfg.bulk {
-                run.b_act(TestActions::SetValue(key, key ^ 0x5555))?;
-                key += 1;
+            // a long chain of synthesized peer commands on top of the current head, ingested in
+            // one transaction: one fat segment + one fat fact index (crosses the fallocate chunk)
+            let head = run.a.as_mut().ok_or("no client")?.head_address(graph).map_err(|e| format!("head_address: {e}"))?;
+            let chain = synth_chain(head, cfg.bulk, key)?;
+            key += cfg.bulk as u64;
+            run.begin();
+            {
+                let a = run.a.as_mut().ok_or("no client")?;
+                let mut trx = a.transaction(graph);
+                a.add_commands(&mut trx, &mut sink(), &chain, &mut run.bufs_a, MemSpill::new)
+                    .map_err(|e| format!("bulk add_commands: {e}"))?;
+                a.commit(trx, &mut sink(), &mut run.bufs_a, MemSpill::new)
+                    .map_err(|e| format!("bulk commit: {e}"))?;
             }
-            run.pull_from_b()?;
+            run.end()?;
             run.act(TestActions::DeleteValue(key - 1, 0))?;
         }
         run.a = None;
@@ -230,6 +239,22 @@ pub fn record(dir: &Path, cfg: &Cfg) -> Result<Recording, String> {
     let events = verif::uninstall();
     let (graph, marks, snaps, ncmds) = res?;
     Ok(Recording { graph, events, marks, snaps, ncmds })
+}
+
+/// `n` basic commands of the test protocol chained on `parent` (what a peer would have sent).
+fn synth_chain(parent: aranya_runtime::Address, n: usize, key0: u64) -> Result<Vec<OwnedCmd>, String> {
+    use aranya_runtime::{Address, MaxCut, Prior, Priority, testing::{hash_for_testing_only, protocol::{WireBasic, WireProtocol}}};
+    let mut out = Vec::with_capacity(n);
+    let mut parent = parent;
+    for i in 0..n {
+        let w = WireProtocol::Basic(WireBasic { parent, prority: 3, payload: (key0 + i as u64, 0xabcd_0000 + i as u64) });
+        let data = postcard::to_allocvec(&w).map_err(|e| format!("postcard: {e}"))?;
+        let id = hash_for_testing_only(&data);
+        let max_cut = MaxCut::new(parent.max_cut.get() + 1);
+        out.push(OwnedCmd { id, priority: Priority::Basic(3), parent: Prior::Single(parent), policy: None, data, max_cut });
+        parent = Address { id, max_cut };
+    }
+    Ok(out)
 }
 
 /// A fresh scratch directory for graph files; tmpfs when available (fsync is free there).
